@@ -188,3 +188,71 @@ def h4_colour(ctx, K, edit):
     if edit:
         ctx.oblige('no_colour_without_dispersion', ctx.And(ctx.eq(TA[0], 0.0), ctx.eq(TL[0], 0.0)))
     ctx.observe('TAchC1', TA[0])
+
+
+@harness('C08', 'H5_axial_field_only', funcs=FUNCS, cases=lambda tier: [dict(K=1), dict(K=2)],
+         bounds='spherical lenses K=1..2, all R, t, n symbolic, stop first, infinite object, EPD aperture, the ONLY field is the axial one '
+                '(Lagrange invariant 0)',
+         doc='spherical aberration does not depend on the field: with only the axial field defined the per-surface transverse spherical term is '
+             'still Welford S_I / (2 n\'u\') (and coma, astigmatism, Petzval, distortion vanish)')
+def h5_axial(ctx, K):
+    L = Lens(ctx, K, (), 1, 'inf', tpos=True)
+    o = L.build(aperture=('EPD', ctx.real('epd', lo=0.1, hi=20.0)), field_type='angle', fields=(0.0,))
+    S, C1, C2, H, (n, ya, ua, yb, ub) = welford(ctx, o, K)
+    den = 2 * n[-1] * ua[-1]
+    if not ctx.finite(den) or bool(den == 0):
+        return
+    TSC, SC, CC, TCC, TAC, AC, TPC, PC, DC, TAchC, LchC, TchC, Ssum = o.aberrations.third_order()
+    for k in range(K):
+        v = ctx.vals(TSC)[k]
+        ctx.oblige(f'TSC_{k + 1}_finite', ctx.finite(v))
+        if ctx.finite(v):
+            ctx.oblige(f'TSC_{k + 1}', ctx.eq(v, S[0][k] / den))
+        for nm, arr in (('CC', CC), ('TAC', TAC), ('TPC', TPC), ('DC', DC)):
+            w = ctx.vals(arr)[k]
+            if ctx.finite(w):
+                ctx.oblige(f'{nm}_{k + 1}_vanishes', ctx.eq(w, 0.0))
+    ctx.observe('den', den)
+
+
+def sym_setup():
+    from symopt import jet
+    jet.set_order(5)      # y(rho) to order rho^3 with two spare orders (quotients of series that vanish at rho = 0 lose accuracy)
+
+
+@harness('C08', 'H6_small_aperture_limit', funcs=FUNCS + ['optiland.optic.Optic.trace_generic', 'optiland.surfaces.standard_surface.Surface._trace_real',
+                                                          'optiland.geometries.standard.StandardGeometry.distance', 'optiland.rays.real_rays.RealRays.refract'],
+         cases=lambda tier: [dict(K=1), dict(K=2)], timeout=600,
+         bounds='spherical lens K=1..2, R, t, n, EPD symbolic, stop first, infinite object, image surface moved to the paraxial focus by '
+                'image_solve(), real image (focus behind the last surface); the REAL ray with pupil coordinate rho traced through the real code as a power series in rho (order 5)',
+         doc='the third-order transverse spherical term predicts the real marginal-ray error in the small-aperture limit: the height of the real '
+             'axial ray on the paraxial image plane is  (sum of the TSC terms) rho^3 + O(rho^4), with vanishing rho^0, rho^1, rho^2 coefficients')
+def h6_limit(ctx, K):
+    from checks.C05 import series, oblige_series, EPS
+    L = Lens(ctx, K, (), 1, 'inf', tpos=True)
+    for t_ in L.t:
+        ctx.assume(t_ > 0)
+    o = L.build(aperture=('EPD', ctx.real('epd', lo=0.1, hi=10.0)), field_type='angle', fields=(0.0, 5.0))
+    o.image_solve()
+    pos = o.surface_group.positions
+    ctx.assume(ctx.val(pos[-1]) > ctx.val(pos[-2]))        # a real image: the paraxial focus lies behind the last surface
+    tsc = ctx.vals(o.aberrations.TSC())
+    if not all(ctx.finite(v) for v in tsc):
+        return
+    tot = tsc[0]
+    for v in tsc[1:]:
+        tot = tot + v
+    RHO = 1e-3          # concrete replay: pupil coordinate at which y / rho^3 is compared with the sum (relative error O(rho^2))
+    if ctx.sym:
+        from symopt.facade import oarr
+        arrP = oarr([series(ctx, 0.0, 1.0)])
+    else:
+        arrP = np.array([RHO])
+    o.trace_generic(0.0, 0.0, ctx.arr(0.0), arrP, 0.55)
+    y_img = ctx.val(o.surface_group.y[-1])
+    if ctx.sym:
+        oblige_series(ctx, 'image_height', y_img, [0.0, 0.0, 0.0, tot])
+    else:
+        # concrete replay at rho = EPS_C: y / rho^3 -> sum TSC
+        ctx.oblige('image_height:series', abs(float(y_img) - float(tot) * RHO ** 3) <= 2e-2 * abs(float(tot)) * RHO ** 3 + 1e-14)
+    ctx.observe('tsc', tot)
